@@ -16,6 +16,7 @@ from __future__ import annotations
 
 import itertools
 import json
+import math
 
 import numpy as np
 
@@ -179,32 +180,65 @@ def gatesets(cirq):
     return out
 
 
+def known_gate_circuits(cirq, gs, tier):
+    """every gateset x the two-qubit gates compilers keep special cases for x integer / half-integer exponents over
+    more than one period, standing alone (alone in the circuit, or fenced by operations that cannot be merged with it)"""
+    import cirq_google
+
+    fams = [cirq.ISWAP, cirq.SWAP, cirq.CZ, cirq.CNOT, cirq.ZZ, cirq.XX, cirq.YY, cirq.SQRT_ISWAP, cirq.FSimGate(np.pi / 2, np.pi / 6), cirq_google.SYC, cirq.PhasedISwapPowGate(phase_exponent=0.25), cirq.givens(0.3)]
+    exps = [-5, -3, -2, -1, -0.5, 0.5, 1, 2, 3, 4, 5] if tier != 'quick' else [-1, 0.5, 3]
+    if tier == 'quick':
+        fams = [cirq.ISWAP, cirq.SWAP, cirq.CZ, cirq.CNOT, cirq.SQRT_ISWAP, cirq.FSimGate(np.pi / 2, np.pi / 6), cirq_google.SYC]
+    out = []
+    for name, (gateset, layout) in gs.items():
+        qs = cirq.LineQubit.range(3) if layout == 'line' else [cirq.GridQubit(0, j) for j in range(3)]
+        for g in fams:
+            for e in exps:
+                try:
+                    ge = g ** e
+                except TypeError:
+                    continue
+                if ge is NotImplemented or ge is None:
+                    continue
+                out.append((name, qs, cirq.Circuit(ge.on(qs[0], qs[1]))))
+                if tier != 'quick' or (e == -1 and g in (cirq.ISWAP, cirq.SWAP)):
+                    out.append((name, qs, cirq.Circuit(cirq.CZ(qs[1], qs[2]), ge.on(qs[0], qs[1]), cirq.CZ(qs[1], qs[2]))))
+    return out
+
+
 def check_gatesets(ctx, cirq, n):
     rng = ctx.substream('gatesets')
     gs = gatesets(cirq)
-    for i in range(n):
-        nq = rng.randint(1, 3)
-        name = rng.choice(list(gs))
-        gateset, layout = gs[name]
-        qs = cirq.LineQubit.range(nq) if layout == 'line' else [cirq.GridQubit(0, j) for j in range(nq)]
-        ops = []
-        for _ in range(rng.randint(1, 6)):
-            k = min(rng.choice([1, 1, 2, 2, 3]), nq)
-            r = rng.random()
-            if r < 0.25:
-                g = cirq.MatrixGate(gen.rand_unitary(rng, 2**k))
-            elif k == 3:
-                g = gen.three_qubit_gate(cirq, rng)
-            else:
-                g = {1: gen.one_qubit_gate, 2: gen.two_qubit_gate}[k](cirq, rng)
-            ops.append(g.on(*rng.sample(qs, k)))
-        circuit = cirq.Circuit(ops)
+    known = known_gate_circuits(cirq, gs, ctx.tier)
+    for i in range(n + len(known)):
+        if i < len(known):
+            name, qs, circuit = known[i]
+            gateset = gs[name][0]
+            ops = list(circuit.all_operations())
+            ctx.count('stream', 'known-gate')
+        else:
+            nq = rng.randint(1, 3)
+            name = rng.choice(list(gs))
+            gateset, layout = gs[name]
+            qs = cirq.LineQubit.range(nq) if layout == 'line' else [cirq.GridQubit(0, j) for j in range(nq)]
+            ops = []
+            for _ in range(rng.randint(1, 6)):
+                k = min(rng.choice([1, 1, 2, 2, 3]), nq)
+                r = rng.random()
+                if r < 0.25:
+                    g = cirq.MatrixGate(gen.rand_unitary(rng, 2**k))
+                elif k == 3:
+                    g = gen.three_qubit_gate(cirq, rng)
+                else:
+                    g = {1: gen.one_qubit_gate, 2: gen.two_qubit_gate}[k](cirq, rng)
+                ops.append(g.on(*rng.sample(qs, k)))
+            circuit = cirq.Circuit(ops)
         try:
             out = cirq.optimize_for_target_gateset(circuit, gateset=gateset)
         except (ValueError, TypeError, NotImplementedError) as e:
             ctx.count('compile_error', f'{name}:{type(e).__name__}:{str(e)[:40]}')
             continue
-        ctx.case(['gateset', name, repr(circuit)], len(ops) >= 2)
+        ctx.case(['gateset', name, repr(circuit)], len(ops) >= 2 or i < len(known))
         ctx.count('check', 'gateset:' + name)
         rep = {'lines': [{'gateset': name, 'circuit': repr(circuit)}], 'theorem_or_correspondence': 'native + equivalent (C01 product)'}
         foreign = [o for o in out.all_operations() if o not in gateset]
@@ -234,6 +268,43 @@ def check_devices(ctx, cirq, n):
     devs.append(('IonQ', cirq_ionq.IonQAPIDevice(qubits=cirq.LineQubit.range(3)), cirq.LineQubit.range(4)))
     pq = [cirq_pasqal.TwoDQubit(x, y) for x in range(2) for y in range(2)]
     devs.append(('PasqalVirtual', cirq_pasqal.PasqalVirtualDevice(control_radius=1.5, qubits=pq), pq + [cirq_pasqal.TwoDQubit(5, 5)]))
+    # Pasqal virtual devices: a controlled operation is accepted iff all its qubits are on the device and pairwise within the
+    # control radius (Euclidean distance, computed here from the coordinates)
+    def coords(q):
+        if isinstance(q, cirq.GridQubit):
+            return (q.row, q.col, 0)
+        if isinstance(q, cirq.LineQubit):
+            return (q.x, 0, 0)
+        return (q.x, q.y, getattr(q, 'z', 0))
+
+    layouts = {
+        'grid': [cirq.GridQubit(r, c) for r in range(3) for c in range(3)],
+        'line': cirq.LineQubit.range(5),
+        'twod': [cirq_pasqal.TwoDQubit(x, y) for x in (0, 1, 2.5) for y in (0, 1.5)],
+        'threed': [cirq_pasqal.ThreeDQubit(x, y, z) for x in (0, 1) for y in (0, 1) for z in (0, 1.2)],
+    }
+    for lname, lq in layouts.items():
+        for radius in (1.0, 1.2, 1.5, 2.0, 2.3, 3.0):
+            dev = cirq_pasqal.PasqalVirtualDevice(control_radius=radius, qubits=lq)
+            for a in lq:
+                for b in lq:
+                    if a == b:
+                        continue
+                    for g in (cirq.CZ, cirq.CZ ** -1):
+                        op = g.on(a, b)
+                        try:
+                            dev.validate_operation(op)
+                            acc = True
+                        except ValueError:
+                            acc = False
+                        dist = math.sqrt(sum((x - y) ** 2 for x, y in zip(coords(a), coords(b))))
+                        if abs(dist - radius) < 1e-9:
+                            continue
+                        ctx.count('check', f'pasqal-radius:{lname}:{acc}')
+                        ctx.case(['pasqal-radius', lname, radius, repr(op)], True)
+                        if acc != (dist <= radius):
+                            ctx.report_witness(f'device:pasqal-radius:{lname}', 'the Pasqal virtual device accepts / rejects a controlled operation against the control radius',
+                                               {'lines': [{'layout': lname, 'radius': radius, 'operation': repr(op)}], 'impl_out': [acc], 'spec_out': [dist <= radius, dist], 'theorem_or_correspondence': 'accept iff Euclidean distance <= control radius'})
     for i in range(n):
         dname, dev, pool = rng.choice(devs)
         g = rng.choice([cirq.X, cirq.Z ** 0.3, cirq.H, cirq.CZ, cirq.CNOT, cirq.XX ** 0.5, cirq.ms(0.3), cirq.PhasedXPowGate(phase_exponent=0.2, exponent=0.4), cirq.ISWAP, cirq.MeasurementGate(1, key='m'), cirq.T,
